@@ -345,3 +345,31 @@ Proof.
   intros H f r c rt H1 H2 H3. rewrite forallb_forall in H. apply H.
   apply (in_all_tables regs (f, r) c rt); assumption.
 Qed.
+
+(* ---------------------------------------------------------------------------------------- *)
+(* defect #1: the comparison as shipped                                                      *)
+(* ---------------------------------------------------------------------------------------- *)
+
+(* ES VAT standard as shipped on the pinned tree *)
+Definition es_vat_standard : list ratevalue :=
+  [ mkValue (Some (mkDate 2012 9 1)) (mkPct 210 3) None [] [] false;
+    mkValue (Some (mkDate 2010 7 1)) (mkPct 180 3) None [] [] false;
+    mkValue (Some (mkDate 1995 1 1)) (mkPct 160 3) None [] [] false;
+    mkValue (Some (mkDate 1993 1 1)) (mkPct 150 3) None [] [] false ].
+
+Lemma shipped_comparison_refuted_witness :
+  exists vals d v,
+    descending_in [] [] vals /\ In v vals /\ applies [] [] v = true /\ since_key v = Some d /\
+    value_shipped d [] [] vals <> Some v /\
+    (exists w, value_shipped d [] [] vals = Some w /\ since_key w <> Some d /\ rv_percent w = mkPct 180 3) /\
+    value_shipped (mkDate 1993 1 1) [] [] vals = None.
+Proof.
+  exists es_vat_standard, (mkDate 2012 9 1), (mkValue (Some (mkDate 2012 9 1)) (mkPct 210 3) None [] [] false).
+  split; [apply table_descending_sound; vm_compute; reflexivity|].
+  split; [left; reflexivity|].
+  split; [reflexivity|]. split; [reflexivity|].
+  split; [vm_compute; discriminate|].
+  split; [|reflexivity].
+  exists (mkValue (Some (mkDate 2010 7 1)) (mkPct 180 3) None [] [] false).
+  split; [reflexivity|]. split; [vm_compute; discriminate|reflexivity].
+Qed.
